@@ -14,6 +14,7 @@ number has (`normal_mk`) — it restricts representations, not numbers.
 -/
 import CtyModel.Lemmas.GoctyRoundtrip
 import CtyModel.Lemmas.GoctyFloat
+import CtyModel.Generated.IntBounds
 namespace CtyModel
 namespace C18
 open Gocty
@@ -31,6 +32,30 @@ theorem bounds_table :
             hi b s = (if s then (2 : Int) ^ (b - 1) - 1 else (2 : Int) ^ b - 1)) := by
   refine ⟨by decide, by decide, fun w => by cases w <;> decide, fun b s => ?_⟩
   cases s <;> simp [lo, hi]
+
+/-- The tie of that table to the source: `Generated.intBounds` / `uintBounds` are
+re-extracted from the `switch target.Type().Bits()` of `fromCtyNumberInt` /
+`fromCtyNumberUInt` in cty/gocty/out.go on every check (a changed bound, a new or
+removed case, or a changed range test makes this theorem fail to check).  Every
+row of the source is a row of the model's table with the same bounds, the model
+panics ("weird number of bits") exactly where the source has no case, and the
+refusal tests are the ones `fromNumInt` / `fromNumUInt` transliterate. -/
+theorem bounds_table_is_source :
+    Generated.intBounds.map (fun r => (r.1, intMinMax r.1)) = Generated.intBounds.map (fun r => (r.1, some r.2)) ∧
+    Generated.uintBounds.map (fun r => (r.1, uintMax r.1)) = Generated.uintBounds.map (fun r => (r.1, some r.2)) ∧
+    (∀ b, b ∉ Generated.intBounds.map (·.1) → intMinMax b = none) ∧
+    (∀ b, b ∉ Generated.uintBounds.map (·.1) → uintMax b = none) ∧
+    Generated.intRangeTest = "accuracy != big.Exact || iv < min || iv > max" ∧
+    Generated.uintRangeTest = "accuracy != big.Exact || !bf.IsInt() || iv > max" := by
+  refine ⟨by decide, by decide, fun b hb => ?_, fun b hb => ?_, by decide, by decide⟩
+  · have h : Generated.intBounds.map (·.1) = [8, 16, 32, 64] := by decide
+    rw [h] at hb
+    unfold intMinMax
+    split <;> simp_all
+  · have h : Generated.uintBounds.map (·.1) = [8, 16, 32, 64] := by decide
+    rw [h] at hb
+    unfold uintMax
+    split <;> simp_all
 
 /-- Integers of every width, signed and unsigned: decoding the number `x` into the
 target succeeds iff `x` is a whole number `k` (finite, no fractional part) with
